@@ -81,6 +81,7 @@ def body(ctx):
             exp_kind = z3.StringVal('none')
             live = z3.BoolVal(True)
             alive_before = []
+            chan_open = z3.BoolVal(True)
             for (fs, rv) in evs:
                 ok_ev = z3.BoolVal(not isinstance(rv, Panic) and err_name(prog, rv) == 'Ok')
                 n = fs.chan('Method')
@@ -93,6 +94,10 @@ def body(ctx):
                     (z3.And(fs.is_method('Connection', 'CloseOk'), n == 0), 'ClientClosedConnection'),
                 ]
                 alive_before.append(live)
+                # the server's answer to the client's cancel is never an error while the channel is open - also when the consumer is
+                # already gone because the server cancelled it first (the two cancels crossed)
+                conds.append(z3.Implies(z3.And(chan_open, fs.is_method('Basic', 'CancelOk'), n == a), ok_ev))
+                chan_open = z3.And(chan_open, z3.Not(z3.And(ok_ev, z3.Or(*[c for (c, kn_) in causes if kn_ in ('ServerClosedChannel', 'ClientClosedChannel', 'ServerClosedConnection', 'ClientClosedConnection')]))))
                 for (c, kname) in causes:
                     exp_kind = z3.If(z3.And(live, ok_ev, c), z3.StringVal(kname), exp_kind)
                 live = z3.And(live, z3.Not(z3.And(ok_ev, z3.Or(*[c for (c, _) in causes]))))
